@@ -152,8 +152,10 @@ class Run:
             'assumptions': self.assumptions, 'wall_s': round(time.time() - self.t0, 2),
             'violations': len(self.violations),
         }
-        os.makedirs(os.path.join(VERIF, 'evidence'), exist_ok=True)
-        with open(os.path.join(VERIF, 'evidence', f'{self.pid}.json'), 'w') as f:
+        # runs against a scratch copy of the repository (mutation testing) must not overwrite the real evidence
+        evdir = os.path.join(VERIF, 'evidence') if os.path.realpath(REPO) == '/repo' else os.path.join(VERIF, 'replays', 'alt-evidence')
+        os.makedirs(evdir, exist_ok=True)
+        with open(os.path.join(evdir, f'{self.pid}.json'), 'w') as f:
             json.dump(ev, f, indent=1, default=str)
         print(f'[{self.pid}] tier={self.tier} obligations={n} discharged={disc} not_discharged={len(nd)} '
               f'violations={len(self.violations)} known={len(self.known_hit)} wall={ev["wall_s"]}s', flush=True)
